@@ -104,9 +104,25 @@ namespace {
     gsl_interp_accel * yacc          = nullptr;               ///< GSL interpolation accelerator for E2 sampling
   };
 
+  /// Check that tabulated cumulative probabilities are in [0,1] and do not decrease
+  void check_cdf_array(const std::vector<double> & cprobs_, const std::string & message_)
+  {
+    double last = 0.0;
+    for (double cp : cprobs_) {
+      if (!(cp >= last) or !(cp <= 1.0)) {
+        throw std::logic_error(message_);
+      }
+      last = cp;
+    }
+    return;
+  }
+
 } // namespace
 
 namespace bxdecay0 {
+
+  /// Largest supported number of kinetic energy samples in a tabulated p.d.f./c.d.f. file
+  static const unsigned int MAX_NSAMPLES = 100000;
 
   /// \brief PIMPL type
   struct dbd_gA::pimpl_type
@@ -439,6 +455,9 @@ namespace bxdecay0 {
         if (_pimpl_->tab_prob.e_min[0] < 0.0 or _pimpl_->tab_prob.e_min[0] >= _pimpl_->tab_prob.e_max[0]) {
           throw std::logic_error("bxdecay0::dbd_gA::_load_tabulated_pdf_: Invalid E range!");
         }
+        if (_pimpl_->tab_prob.nsamples < 2 or _pimpl_->tab_prob.nsamples > MAX_NSAMPLES) {
+          throw std::logic_error("bxdecay0::dbd_gA::_load_tabulated_pdf_: Invalid number of energy samples!");
+        }
 
         _pimpl_->tab_prob.e_nsamples[0] = _pimpl_->tab_prob.nsamples;
         _pimpl_->tab_prob.e_nsamples[1] = _pimpl_->tab_prob.nsamples;
@@ -484,8 +503,8 @@ namespace bxdecay0 {
       {
         unsigned int n1 = _pimpl_->tab_prob.e_nsamples[0];
         unsigned int n2 = _pimpl_->tab_prob.e_nsamples[1];
-        if (prob_index == 0) {
-          _pimpl_->tab_prob.prob.reserve(n1 * n2);
+        if (e2_pdf_count >= (int)_pimpl_->tab_prob.nsamples) {
+          throw std::logic_error("bxdecay0::dbd_gA::_load_tabulated_pdf_: Too many lines of p.d.f. samples!");
         }
         unsigned int e2_expected_samples = _pimpl_->tab_prob.nsamples - e2_pdf_count;
         unsigned int e2_sample_count     = 0;
@@ -504,6 +523,10 @@ namespace bxdecay0 {
           if (prob < 0.0) {
             throw std::logic_error("bxdecay0::dbd_gA::_load_tabulated_pdf_: Invalid p.d.f. value ["
                                    + std::to_string(prob) + "] at line #" + std::to_string(nlines) + "!");
+          }
+          if (e2_sample_count >= e2_expected_samples) {
+            throw std::logic_error("bxdecay0::dbd_gA::_load_tabulated_pdf_: Too many p.d.f. samples at line #"
+                                   + std::to_string(nlines) + "!");
           }
           e2_sample_count++;
           int index1 = prob_index / n2;
@@ -552,6 +575,12 @@ namespace bxdecay0 {
         }
         break;
       }
+    }
+    if (!parsed_energy_sampling_header or e2_pdf_count != (int)_pimpl_->tab_prob.nsamples) {
+      throw std::logic_error("bxdecay0::dbd_gA::_load_tabulated_pdf_: Missing lines of p.d.f. samples!");
+    }
+    if (!(_pimpl_->tab_prob.prob_max > 0.0)) {
+      throw std::logic_error("bxdecay0::dbd_gA::_load_tabulated_pdf_: Tabulated p.d.f. is null everywhere!");
     }
     if (debug) {
       std::cerr << "[debug] bxdecay0::dbd_gA::_load_tabulated_pdf_: Energy sampling step = "
@@ -659,6 +688,9 @@ namespace bxdecay0 {
         if (_pimpl_->tab_prob.e_min[0] < 0.0 or _pimpl_->tab_prob.e_min[0] >= _pimpl_->tab_prob.e_max[0]) {
           throw std::logic_error("bxdecay0::dbd_gA::_load_tabulated_cdf_opt_: Invalid E range!");
         }
+        if (_pimpl_->tab_prob.nsamples < 2 or _pimpl_->tab_prob.nsamples > MAX_NSAMPLES) {
+          throw std::logic_error("bxdecay0::dbd_gA::_load_tabulated_cdf_opt_: Invalid number of energy samples!");
+        }
 
         _pimpl_->tab_prob.energies.reserve(_pimpl_->tab_prob.nsamples);
         _pimpl_->tab_prob.e_min[1] = _pimpl_->tab_prob.e_min[0];
@@ -699,6 +731,10 @@ namespace bxdecay0 {
       if (!parsed_e1_cdf) {
         std::istringstream line_iss(raw_line);
         load_optimized_cdf_array(raw_line, _pimpl_->tab_prob.e1_cprobs);
+        if (_pimpl_->tab_prob.e1_cprobs.size() != _pimpl_->tab_prob.nsamples) {
+          throw std::logic_error("bxdecay0::dbd_gA::_load_tabulated_cdf_opt_: Unexpected number of E1 c.d.f. samples!");
+        }
+        check_cdf_array(_pimpl_->tab_prob.e1_cprobs, "bxdecay0::dbd_gA::_load_tabulated_cdf_opt_: Invalid E1 c.d.f. samples!");
         parsed_e1_cdf = true;
         // Prepare the number of e2 energy samples for a c.d.f. probs line:
         _pimpl_->tab_prob.e2_cprobs.reserve(_pimpl_->tab_prob.e1_cprobs.size());
@@ -719,6 +755,9 @@ namespace bxdecay0 {
           static std::vector<double> empty;
           _pimpl_->tab_prob.e2_cprobs.push_back(empty);
         }
+        if (e2_cdf_count >= (int)_pimpl_->tab_prob.nsamples) {
+          throw std::logic_error("bxdecay0::dbd_gA::_load_tabulated_cdf_opt_: Too many lines of c.d.f. samples!");
+        }
         std::vector<double> & cdf_probs  = _pimpl_->tab_prob.e2_cprobs.back();
         unsigned int e2_expected_samples = _pimpl_->tab_prob.nsamples - e2_cdf_count;
         cdf_probs.reserve(e2_expected_samples);
@@ -734,6 +773,7 @@ namespace bxdecay0 {
           throw std::logic_error(
               "bxdecay0::dbd_gA::_load_tabulated_cdf_opt_: expected vs effective E2 cprob count match issue!");
         }
+        check_cdf_array(cdf_probs, "bxdecay0::dbd_gA::_load_tabulated_cdf_opt_: Invalid E2 c.d.f. samples!");
         e2_cdf_count++;
         if (debug) {
           std::cerr << "[debug] bxdecay0::dbd_gA::_load_tabulated_cdf_opt_: E2 cdf count #" << e2_cdf_count << " has "
@@ -753,6 +793,9 @@ namespace bxdecay0 {
         break;
       }
     } // while getline loop
+    if (!parsed_e1_cdf or e2_cdf_count != (int)_pimpl_->tab_prob.nsamples) {
+      throw std::logic_error("bxdecay0::dbd_gA::_load_tabulated_cdf_opt_: Missing lines of c.d.f. samples!");
+    }
     if (debug) {
       std::cerr << "[debug] bxdecay0::dbd_gA::_load_tabulated_cdf_opt_: Energy sampling step = "
                 << std::to_string(_pimpl_->tab_prob.energy_step) << " MeV" << std::endl;
